@@ -6,7 +6,7 @@
 (*     verdict     "accepted" | "rejected"   (what the front end says)     *)
 (*     errorCount  number of diagnostics     (informative only)            *)
 (*     obs         what the compiled program does (when accepted)          *)
-(* Each of the eight rewrite kinds is an action on programs; the property  *)
+(* Each of the nine rewrite kinds is an action on programs; the property   *)
 (* is the ACTION PROPERTY                                                  *)
 (*     [][ verdict' = verdict /\ (verdict = "accepted" => obs' = obs) ]_v  *)
 (* Because it constrains every step, it also constrains every chain of     *)
@@ -15,11 +15,12 @@
 (* This module is the design-level statement: a small abstract program     *)
 (* (named binders in nested scopes and their uses, classes in an order and *)
 (* in modules, members in an order, expression sites that can carry        *)
-(* parentheses / blocks, lets and calls that can carry inferred types      *)
-(* explicitly) together with the REFERENCE reading of such a program       *)
+(* parentheses / blocks, lets, lambda parameters and calls that can carry   *)
+(* inferred types explicitly) together with the REFERENCE reading of such  *)
+(* a program                                                               *)
 (* (name resolution as ssa_analysis.rs does it: innermost enclosing        *)
 (* binder of that name, a clash with an enclosing binder is an error, an   *)
-(* unbound name is an error).  TLC checks that the eight rewrites, under   *)
+(* unbound name is an error).  TLC checks that the nine rewrites, under    *)
 (* the side conditions the harness enforces (fresh name that occurs        *)
 (* nowhere; binder not part of a clash; annotation = exactly the inferred  *)
 (* type; the moved class is not private), are stuttering steps of the      *)
@@ -46,6 +47,9 @@ CONSTANTS
   Lets,           \* let statements without annotation
   Calls,          \* generic calls without explicit type arguments
   Printable,      \* SUBSET (Lets \cup Calls): the inferred type can be written down exactly
+  Lambdas,        \* lambda expressions
+  Arity,          \* [Lambdas -> Nat]: number of parameters (0: nothing to annotate)
+  PrintableParam, \* [Lambdas -> SUBSET Nat]: parameters whose inferred type can be written down exactly
   MaxChain,       \* length of rewrite histories explored
   SafeRename      \* TRUE: RenameLocal demands a name that occurs nowhere (what the harness does)
 
@@ -55,13 +59,14 @@ VARIABLES
   order, morder, home,    \* order of classes, of members, module of each class
   parens, blocks,         \* [Sites -> Nat]
   annotated, explicit,    \* SUBSET Lets, SUBSET Calls
+  lamAnnot,               \* [Lambdas -> SUBSET Nat]: the parameters that carry an annotation
   verdict, errorCount, obs,   \* THE SUMMARY
   last, steps             \* the rewrite that led here, length of the history
-prog == <<bname, uname, typeErrs, order, morder, home, parens, blocks, annotated, explicit>>
+prog == <<bname, uname, typeErrs, order, morder, home, parens, blocks, annotated, explicit, lamAnnot>>
 vars == <<prog, verdict, errorCount, obs, last, steps>>
 
 Kinds == {"RenameLocal", "ReorderToplevels", "ReorderMembers", "Parenthesise", "WrapInBlock",
-          "AnnotateLet", "ExplicitTypeArgs", "SplitModule"}
+          "AnnotateLet", "ExplicitTypeArgs", "SplitModule", "AnnotateLambda"}
 
 \* ---- the reference reading of a program -------------------------------------------------
 RECURSIVE Chain(_)
@@ -99,6 +104,8 @@ Init ==
   /\ home \in [Classes -> {CHOOSE m \in Modules : TRUE}]
   /\ parens = [s \in Sites |-> 0] /\ blocks = [s \in Sites |-> 0]
   /\ annotated = {} /\ explicit = {}
+  /\ lamAnnot \in [Lambdas -> {{}, {1}}]      \* lambdas arrive un-annotated or partly annotated
+  /\ \A x \in Lambdas : lamAnnot[x] \subseteq 1..Arity[x]
   /\ verdict = Verdict(bname, uname, typeErrs)
   /\ errorCount = ErrorCount(bname, uname, typeErrs)
   /\ obs = Obs(bname, uname, typeErrs)
@@ -117,7 +124,7 @@ RenameLocal(b, n) ==
   /\ SafeRename => n \notin Occurring
   /\ bname' = [bname EXCEPT ![b] = n]
   /\ uname' = [u \in Uses |-> IF Resolve(bname, uname, u) = b THEN n ELSE uname[u]]
-  /\ UNCHANGED <<typeErrs, order, morder, home, parens, blocks, annotated, explicit>>
+  /\ UNCHANGED <<typeErrs, order, morder, home, parens, blocks, annotated, explicit, lamAnnot>>
   /\ Summarise(bname', uname', typeErrs)
 
 Untouched == UNCHANGED <<bname, uname, typeErrs>> /\ Summarise(bname, uname, typeErrs)
@@ -125,37 +132,51 @@ Untouched == UNCHANGED <<bname, uname, typeErrs>> /\ Summarise(bname, uname, typ
 ReorderToplevels(i, j) ==
   /\ Step("ReorderToplevels") /\ i < j /\ home[order[i]] = home[order[j]]
   /\ order' = [order EXCEPT ![i] = order[j], ![j] = order[i]]
-  /\ UNCHANGED <<morder, home, parens, blocks, annotated, explicit>> /\ Untouched
+  /\ UNCHANGED <<morder, home, parens, blocks, annotated, explicit, lamAnnot>> /\ Untouched
 
 ReorderMembers(c, i, j) ==
   /\ Step("ReorderMembers") /\ i < j
   /\ morder' = [morder EXCEPT ![c] = [@ EXCEPT ![i] = morder[c][j], ![j] = morder[c][i]]]
-  /\ UNCHANGED <<order, home, parens, blocks, annotated, explicit>> /\ Untouched
+  /\ UNCHANGED <<order, home, parens, blocks, annotated, explicit, lamAnnot>> /\ Untouched
 
 Parenthesise(s) ==
   /\ Step("Parenthesise") /\ parens' = [parens EXCEPT ![s] = @ + 1]
-  /\ UNCHANGED <<order, morder, home, blocks, annotated, explicit>> /\ Untouched
+  /\ UNCHANGED <<order, morder, home, blocks, annotated, explicit, lamAnnot>> /\ Untouched
 
 WrapInBlock(s) ==
   /\ Step("WrapInBlock") /\ s \in BlockOk /\ blocks' = [blocks EXCEPT ![s] = @ + 1]
-  /\ UNCHANGED <<order, morder, home, parens, annotated, explicit>> /\ Untouched
+  /\ UNCHANGED <<order, morder, home, parens, annotated, explicit, lamAnnot>> /\ Untouched
 
 \* the annotation written is exactly the inferred type, so the reading of the program is the same
 AnnotateLet(x) ==
   /\ Step("AnnotateLet") /\ x \in Lets \ annotated /\ x \in Printable
   /\ annotated' = annotated \cup {x}
-  /\ UNCHANGED <<order, morder, home, parens, blocks, explicit>> /\ Untouched
+  /\ UNCHANGED <<order, morder, home, parens, blocks, explicit, lamAnnot>> /\ Untouched
 
 ExplicitTypeArgs(x) ==
   /\ Step("ExplicitTypeArgs") /\ x \in Calls \ explicit /\ x \in Printable
   /\ explicit' = explicit \cup {x}
-  /\ UNCHANGED <<order, morder, home, parens, blocks, annotated>> /\ Untouched
+  /\ UNCHANGED <<order, morder, home, parens, blocks, annotated, lamAnnot>> /\ Untouched
+
+\* the parameters ps of lambda x (all its un-annotated parameters, or a single one) get their
+\* inferred types as annotations; what is written is exactly what inference found, for the
+\* parameters and hence for the body, so the reading of the program is the same -- whatever
+\* the position of the lambda (argument of a call whose type arguments are still to be solved,
+\* right-hand side of a let, body of another lambda) and whatever its arity (ps is never empty:
+\* a lambda without parameters has no instance)
+OpenParams(x) == (1..Arity[x]) \ lamAnnot[x]
+AnnotateLambda(x, ps) ==
+  /\ Step("AnnotateLambda") /\ ps # {} /\ ps \subseteq OpenParams(x)
+  /\ ps = OpenParams(x) \/ Cardinality(ps) = 1
+  /\ ps \subseteq PrintableParam[x]
+  /\ lamAnnot' = [lamAnnot EXCEPT ![x] = @ \cup ps]
+  /\ UNCHANGED <<order, morder, home, parens, blocks, annotated, explicit>> /\ Untouched
 
 \* class c moves to a module nothing lives in yet; imports follow (cycles are legal in samlang)
 SplitModule(c, m) ==
   /\ Step("SplitModule") /\ c \notin Private /\ m \notin { home[d] : d \in Classes }
   /\ home' = [home EXCEPT ![c] = m]
-  /\ UNCHANGED <<order, morder, parens, blocks, annotated, explicit>> /\ Untouched
+  /\ UNCHANGED <<order, morder, parens, blocks, annotated, explicit, lamAnnot>> /\ Untouched
 
 Next ==
   \/ \E b \in Binders, n \in Names : RenameLocal(b, n)
@@ -164,6 +185,7 @@ Next ==
   \/ \E s \in Sites : Parenthesise(s) \/ WrapInBlock(s)
   \/ \E x \in Lets : AnnotateLet(x)
   \/ \E x \in Calls : ExplicitTypeArgs(x)
+  \/ \E x \in Lambdas : \E ps \in SUBSET (1..Arity[x]) : AnnotateLambda(x, ps)
   \/ \E c \in Classes, m \in Modules : SplitModule(c, m)
 
 Spec == Init /\ [][Next]_vars
@@ -181,4 +203,5 @@ TypeOK ==
   /\ verdict \in {"accepted", "rejected"} /\ errorCount \in Nat
   /\ last \in Kinds \cup {"Original"} /\ steps \in 0..MaxChain
   /\ verdict = Verdict(bname, uname, typeErrs) /\ obs = Obs(bname, uname, typeErrs)
+  /\ \A x \in Lambdas : lamAnnot[x] \subseteq 1..Arity[x]
 =============================================================================
